@@ -47,12 +47,11 @@ theorem request_ids_distinct (start k : Nat) :
     the three disciplines on the table regenerated from the current source; the documented global
     mutation `constants.CurrentNetwork` is excluded as the property says -/
 theorem lib_race_free :
-    tableOk BtcVerif.Gen.accessTable ["bitcoinlib/constants.CurrentNetwork"] = true := by decide +kernel
+    tableOk BtcVerif.Gen.accessTable BtcVerif.Gen.excludedLocs = true := by decide +kernel
 
 /-- the table is not empty and covers the interesting locations (non-vacuity) -/
 theorem table_covers :
-    (locs BtcVerif.Gen.accessTable).contains "bitcoinlib/ecc.Curve" = true ∧
-    (locs BtcVerif.Gen.accessTable).contains "bitcoinlib/bip32.curve" = true ∧
-    (locs BtcVerif.Gen.accessTable).contains "rpc.Connection.requestID" = true := by decide +kernel
+    BtcVerif.Gen.coverLocs.all (fun i => i != 0 && (locs BtcVerif.Gen.accessTable).contains i) = true := by
+  decide +kernel
 
 end BtcVerif.Props.C19
